@@ -13,6 +13,9 @@
 //	            (type-directed core of the set) over a 12-value universe.
 //	programs    whole programs from lib.NewGen (Immutables on) under the per-instruction probe.
 //	immprog     immutable-heavy programs (slice/append/+/copy/iteration then writes, freeze, modules).
+//	shapes / exports (shapes.go, reported under objops and immprog): every nesting of mutable / immutable
+//	            array and map layers up to depth 4, frozen and attacked at every reachable container;
+//	            every export expression form with array and map payloads, attacked by the importer.
 //
 // Searcher (model independent): a snapshot of an immutable value changed although no mutable alias of
 // its storage existed when it became immutable (provenance tracked here); freeze(x) != x; freeze
@@ -130,6 +133,10 @@ func main() {
 	for _, s := range corpusSeqs() {
 		runSeq(s, "objops")
 	}
+	// systematic searchers first (their own generator state: the random streams below are unaffected)
+	srng := lib.NewRNG(f.Seed)
+	runShapes(srng.Fork(), f.Scale(2, 6))
+	runExports(srng.Fork(), f.Scale(150, 3000))
 	rng := lib.NewRNG(f.Seed)
 	nSeq := f.Scale(3000, 60000)
 	for i := 0; i < nSeq; i++ {
@@ -174,9 +181,12 @@ func replay(path string) {
 		fatal(err)
 	}
 	type inp struct {
-		Ops    []opRec `json:"ops"`
-		Source string  `json:"source"`
-		Global string  `json:"global"`
+		Ops     []opRec           `json:"ops"`
+		Source  string            `json:"source"`
+		Global  string            `json:"global"`
+		Kind    string            `json:"kind"`
+		Modules map[string]string `json:"modules"`
+		Host    map[string]string `json:"host"`
 	}
 	var rp struct {
 		Violations []struct {
@@ -200,7 +210,13 @@ func replay(path string) {
 		if len(in.Ops) > 0 {
 			runSeq(in.Ops, "objops")
 		}
-		if in.Source != "" {
+		switch {
+		case in.Source == "":
+		case in.Kind == "frozen-shape":
+			runFrozenProgram(in.Source, in.Modules, in.Host)
+		case in.Kind == "export-import":
+			runExportProgram(in.Source, in.Modules)
+		default:
 			runProgram(stream, in.Source, progModules(), []string{in.Global})
 		}
 	}
